@@ -4,8 +4,9 @@ from ..tables import t5x_sampling as T
 
 
 def run(ctx: Ctx) -> None:
-    T.run_batch_sample(ctx)
-    T.run_modules(ctx)
+    with ctx.parallel():  # every obligation builds its own environment
+        T.run_batch_sample(ctx)
+        T.run_modules(ctx)
     ctx.floor("T5x.resample", 16)
     ctx.floor("T5x.modes", 12)
     ctx.floor("T5x.identity", 8)
@@ -40,6 +41,8 @@ def mutants(prog):
         ("align: composition order", M, "AlignImage.forward", "homogeneous_matmul(composite_transform, transform)", "homogeneous_matmul(transform, composite_transform)", "T5x.modules"),
         ("transform: skips target->source", M, "TransformImage.forward", "grid = self._transform_target_to_source(grid)", "grid = grid", "T5x.modules"),
         ("grid: points_transform through world", "deepali.core.grid", "grid_points_transform", "return grid.transform(axes=axes, to_axes=to_axes, to_grid=to_grid, vectors=False)", "return to_grid.transform(axes=axes, to_axes=to_axes, to_grid=grid, vectors=False)", "T5x."),
+        ("points(CUBE): grid's own flag", "deepali.core.grid", "Grid.points", "self.coords(normalize=axes is Axes.CUBE, align_corners=False, dtype=dtype, device=device)", "self.coords(normalize=axes is Axes.CUBE, dtype=dtype, device=device)", "T5x.modules"),
+        ("apply_transform: same-domain shortcut", "deepali.core.grid", "Grid.apply_transform", "if to_grid is not None and to_grid != self or axes is not to_axes:", "if to_grid is not None and (not self.same_domain_as(to_grid)) or axes is not to_axes:", "T5x.resample"),
     ]
     for name, mod, fn, old, new, expect in specs:
         ov = source_sub(prog, mod, fn, old, new)
